@@ -103,9 +103,9 @@ PROPS["C03"] = dict(
 PROPS["C04"] = dict(
     jobs=BOTH,
     rule="one case = one LDPC-Staircase streaming history (any order, duplicates), observed after EVERY of_decode_with_new_symbol call: available sources == source part of the peeling closure "
-         "(own incremental peeling on the parity-check equations derived black-box from the encoder), completion flag == closure contains all sources. non-trivial = at least one submission",
+         "(own incremental peeling on the parity-check equations derived black-box from the encoder), completion flag == closure contains all sources; plus constructed deep-chain histories (one call rebuilds thousands of repair symbols in a row, staircases up to 9000 / 20000 equations). non-trivial = at least one submission",
     budget_s={"quick": 900, "thorough": 7200},
-    require_counters={"any": {"prefix_checks": 10000, "decoded_during_submission": 100}},
+    require_counters={"any": {"prefix_checks": 10000, "decoded_during_submission": 100, "deep_chain_depth_ge_4096": 2}},
     assumptions=_codec_assume + ["equations are taken in staircase form: row j = (g_j xor g_{j-1}) on the sources plus repair j and j-1"],
 )
 PROPS["C10"] = dict(
